@@ -1089,6 +1089,98 @@ impl ser::Serializer for ValueSerializer {
     }
 }
 
+/// [`ValueSerializer`] for the value of a map entry or struct field: remembers whether the value
+/// itself was `None` (such an entry is skipped), as opposed to a `None` somewhere inside it
+struct MapValueSerializer<'a> {
+    is_none: &'a mut bool,
+}
+
+macro_rules! forward_to_value_serializer {
+    ($($method:ident($($arg:ident: $ty:ty),*) -> $ret:ty;)*) => {
+        $(
+            fn $method(self, $($arg: $ty),*) -> Result<$ret, crate::ser::Error> {
+                ValueSerializer.$method($($arg),*)
+            }
+        )*
+    };
+}
+
+impl ser::Serializer for MapValueSerializer<'_> {
+    type Ok = Value;
+    type Error = crate::ser::Error;
+
+    type SerializeSeq = ValueSerializeVec;
+    type SerializeTuple = ValueSerializeVec;
+    type SerializeTupleStruct = ValueSerializeVec;
+    type SerializeTupleVariant = ValueSerializeTupleVariant;
+    type SerializeMap = ValueSerializeMap;
+    type SerializeStruct = ValueSerializeMap;
+    type SerializeStructVariant = ValueSerializeStructVariant;
+
+    fn serialize_none(self) -> Result<Value, crate::ser::Error> {
+        *self.is_none = true;
+        Err(crate::ser::Error::unsupported_none())
+    }
+
+    fn serialize_some<T>(self, value: &T) -> Result<Value, crate::ser::Error>
+    where
+        T: ser::Serialize + ?Sized,
+    {
+        ValueSerializer.serialize_some(value)
+    }
+
+    fn serialize_newtype_struct<T>(
+        self,
+        name: &'static str,
+        value: &T,
+    ) -> Result<Value, crate::ser::Error>
+    where
+        T: ser::Serialize + ?Sized,
+    {
+        ValueSerializer.serialize_newtype_struct(name, value)
+    }
+
+    fn serialize_newtype_variant<T>(
+        self,
+        name: &'static str,
+        variant_index: u32,
+        variant: &'static str,
+        value: &T,
+    ) -> Result<Value, crate::ser::Error>
+    where
+        T: ser::Serialize + ?Sized,
+    {
+        ValueSerializer.serialize_newtype_variant(name, variant_index, variant, value)
+    }
+
+    forward_to_value_serializer! {
+        serialize_bool(v: bool) -> Value;
+        serialize_i8(v: i8) -> Value;
+        serialize_i16(v: i16) -> Value;
+        serialize_i32(v: i32) -> Value;
+        serialize_i64(v: i64) -> Value;
+        serialize_u8(v: u8) -> Value;
+        serialize_u16(v: u16) -> Value;
+        serialize_u32(v: u32) -> Value;
+        serialize_u64(v: u64) -> Value;
+        serialize_f32(v: f32) -> Value;
+        serialize_f64(v: f64) -> Value;
+        serialize_char(v: char) -> Value;
+        serialize_str(v: &str) -> Value;
+        serialize_bytes(v: &[u8]) -> Value;
+        serialize_unit() -> Value;
+        serialize_unit_struct(name: &'static str) -> Value;
+        serialize_unit_variant(name: &'static str, variant_index: u32, variant: &'static str) -> Value;
+        serialize_seq(len: Option<usize>) -> ValueSerializeVec;
+        serialize_tuple(len: usize) -> ValueSerializeVec;
+        serialize_tuple_struct(name: &'static str, len: usize) -> ValueSerializeVec;
+        serialize_tuple_variant(name: &'static str, variant_index: u32, variant: &'static str, len: usize) -> ValueSerializeTupleVariant;
+        serialize_map(len: Option<usize>) -> ValueSerializeMap;
+        serialize_struct(name: &'static str, len: usize) -> ValueSerializeMap;
+        serialize_struct_variant(name: &'static str, variant_index: u32, variant: &'static str, len: usize) -> ValueSerializeStructVariant;
+    }
+}
+
 pub(crate) struct TableSerializer;
 
 impl ser::Serializer for TableSerializer {
@@ -1361,13 +1453,17 @@ impl ser::SerializeMap for SerializeMap {
     {
         let key = self.next_key.take();
         let key = key.expect("serialize_value called before serialize_key");
-        match Value::try_from(value) {
+        let mut is_none = false;
+        match value.serialize(MapValueSerializer {
+            is_none: &mut is_none,
+        }) {
             Ok(value) => {
                 self.map.insert(key, value);
             }
+            // Only a value that *is* `None` is skipped; a `None` nested deeper is an error
             Err(crate::ser::Error {
                 inner: crate::edit::ser::Error::UnsupportedNone,
-            }) => {}
+            }) if is_none => {}
             Err(e) => return Err(e),
         }
         Ok(())
